@@ -365,7 +365,7 @@ def primitives(ctx):
                 p.call('evaluation.' + rng.choice(['accuracy_knee', 'accuracy_trace']), pts, knees)
         elif g == 'rdp_misc' and knees is not None:
             # a caller-made reduction: end points plus the shared knee indices
-            red = {'concat': [0, knees, n - 1]}
+            red = {'concat': [0, knees, n - 1], 'ro': rng.random() < 0.4}
             rem = R(p.call('rdp.compute_removed_points', pts, red))
             p.call('rdp.mapping', {'list': list(range(0, min(3, len(ctx.pool[idxs[0]]['values']) + 2)))}, red, rem)
             p.call('evaluation.compute_global_rmse', pts, red)
@@ -447,4 +447,23 @@ def streaming(ctx):
     return p.out()
 
 
-CLIENT_KINDS = {'pipeline': pipeline, 'zclient': zclient, 'primitives': primitives, 'streaming': streaming}
+SOAK_FUNCTIONS = ['convex_hull.graham_scan', 'convex_hull.graham_scan_lower', 'linear_fit.linear_fit_points', 'linear_fit.r2_points',
+                  'linear_fit.linear_fit_residuals_points', 'linear_fit.shortest_distance_points', 'menger.knee', 'curvature.knee',
+                  'dfdt.knee', 'kneedle.knee', 'lmethod.get_knee', 'knee_ranking.rank', 'knee_ranking.distances',
+                  'clustering.single_linkage', 'clustering.average_linkage', 'rdp.rdp_fixed', 'rdp.grdp',
+                  'evaluation.compute_global_rmse', 'evaluation.compute_global_cost', 'evaluation.mip', 'zmethod.getPoints',
+                  'postprocessing.triangle_area']
+
+
+def soak(ctx):
+    """A long-lived process that calls one function on hundreds of distinct small inputs and then repeats
+    the first ones (the loop itself is the caller op `caller.soak`, so the plan stays small)."""
+    rng = ctx.rng
+    p = Prog('soak')
+    for _ in range(rng.randint(1, 2)):
+        p.call('caller.soak', rng.choice(SOAK_FUNCTIONS), rng.choice([150, 300, 600, 1100]), rng.randrange(1 << 30), rng.choice([6, 7, 9]))
+        p.steps[-1]['nodup'] = True
+    return p.out()
+
+
+CLIENT_KINDS = {'pipeline': pipeline, 'zclient': zclient, 'primitives': primitives, 'streaming': streaming, 'soak': soak}
